@@ -671,6 +671,10 @@ def solver_cases(draw, tier):
                 gens=draw(st.integers(3, 5)), cog=[draw(st.sampled_from([1e-10, 1e-13])), draw(st.integers(8, 14))], budget=G)
 
 
+class _Runaway(Exception):
+    pass
+
+
 class Groups(object):
     """the relations applied so far: x[i] == c (fixed), x[i] == x[j] (ties, union-find)"""
     def __init__(self, dim):
@@ -724,7 +728,11 @@ def run_solver(case, ctx):
     log = []
     orig = s.Collapse
 
+    max_collapses = dim + dim * (dim - 1) // 2 + 2      # more calls than distinct collapses exist: the loop is not ending
+
     def wrapped(disp=False):
+        if len(log) > max_collapses:
+            raise _Runaway()
         e = dict(mark=len(calls), gen=int(s.generations), best=lab.fvec(s.bestSolution), before=mt.state(s._termination),
                  hist=[[float(v) for v in r] for r in s._stepmon._x[-N:]], nhist=len(s.energy_history))
         e['result'] = orig(disp)
@@ -732,7 +740,14 @@ def run_solver(case, ctx):
         log.append(e)
         return e['result']
     s.Collapse = wrapped
-    s.Solve()
+    try:
+        s.Solve()
+        runaway = False
+    except _Runaway:
+        runaway = True
+    ctx.expect(not runaway, 'C11.solve_returns',
+               lambda: dict(why='Collapse() called more often than there are distinct collapses: Solve does not end',
+                            results=[repr(e['result']) for e in log[-3:]]))
 
     tkind = 'none' if target is None else 'list' if isinstance(target, list) else 'scalar'
     ctx.label('solver:' + kind, 'conds:' + case['which'], 'target:' + tkind, 'offset:%s' % offset)
@@ -825,6 +840,8 @@ def run_solver(case, ctx):
 
     def final_class(comp, rel, x):
         """the reported solution is a point that was evaluated before the collapse it violates"""
+        if isinstance(target, list) and any(i in rel['fixed'] and x[i] != rel['fixed'][i] and x[i] in target for i in comp):
+            return 'list-target-misaligned'           # x[i] sits at another entry of the target list
         c = order_class(comp, rel)
         if c or where_final[0] is None:
             return c
@@ -832,30 +849,40 @@ def run_solver(case, ctx):
         return 'stale-best' if last < marks[group_event(comp, rel)] else ''
 
     where_final = [None]
+    offset_failed = [False]
+    dead = set()
 
     def check_point(x, rel, sub, where):
         for comp, vals in rel['comps']:
-            if oidx & set(comp):
+            if oidx & set(comp) or tuple(comp) in dead:
                 continue
             if len(vals) > 1:           # contradictory relations: only 'one of them wins'
                 ok = all(x[i] in vals for i in comp)
                 ctx.exclude('conflicting-collapses')
-                ctx.expect(ok, sub, lambda: dict(where=where, x=list(x), group=comp, fixed_values=vals, cls=final_class(comp, rel, x),
-                                                 why='conflicting group: member at none of the fixed values'))
+                if not ctx.expect(ok, sub, lambda: dict(where=where, x=list(x), group=comp, fixed_values=vals, cls=final_class(comp, rel, x),
+                                                        why='conflicting group: member at none of the fixed values')):
+                    dead.add(tuple(comp))           # a known finding: one report per group and case
             else:
                 ref = vals[0] if vals else x[comp[0]]
                 ok = all(x[i] == ref for i in comp)
-                ctx.expect(ok, sub, lambda: dict(where=where, x=list(x), group=comp, must_equal=ref,
-                                                 fixed={str(i): rel['fixed'][i] for i in comp if i in rel['fixed']},
-                                                 cls=final_class(comp, rel, x),
-                                                 collapses=[repr(e['result']) for e in events]))
+                if not ctx.expect(ok, sub, lambda: dict(where=where, x=list(x), group=comp, must_equal=ref,
+                                                        fixed={str(i): rel['fixed'][i] for i in comp if i in rel['fixed']},
+                                                        cls=final_class(comp, rel, x),
+                                                        collapses=[repr(e['result']) for e in events])):
+                    dead.add(tuple(comp))
+        if offset_failed[0]:            # one report per case is enough (every later point fails the same way)
+            return
         for i, j, d in rel['otie']:
             ok = abs(abs(x[j] - x[i]) - d) <= tol + 1e-12
-            ctx.expect(ok, 'C11.offset_relation', lambda: dict(where=where, x=list(x), pair=[i, j], distance_at_collapse=d, got=abs(x[j] - x[i]), tol=tol))
+            if not ctx.expect(ok, 'C11.offset_relation', lambda: dict(where=where, x=list(x), pair=[i, j], distance_at_collapse=d,
+                                                                     got=abs(x[j] - x[i]), tol=tol)):
+                offset_failed[0] = True
         for i in sorted(rel['oidx']):
             if i in rel['fixed']:
-                ctx.expect(x[i] == rel['fixed'][i], 'C11.offset_relation',
-                           lambda: dict(where=where, x=list(x), index=i, fixed_at=rel['fixed'][i], why='fixed parameter moved by the offset tie'))
+                if not ctx.expect(x[i] == rel['fixed'][i], 'C11.offset_relation',
+                                  lambda: dict(where=where, x=list(x), index=i, fixed_at=rel['fixed'][i],
+                                               why='fixed parameter moved by the offset tie')):
+                    offset_failed[0] = True
 
     for n_, (mark, rel) in enumerate(segments):
         end = segments[n_ + 1][0] if n_ + 1 < len(segments) else len(calls)
@@ -903,7 +930,12 @@ def _kf_cost_clip(case, sub, d):
 
 
 def _kf_list_target(case, sub, d):
-    return (sub == 'C11.no_crash' and isinstance(case.get('target'), list) and d.get('exception') == 'ValueError'
+    if not isinstance(case.get('target'), list):
+        return False
+    if sub in ('C11.relation_calls', 'C11.final_solution'):
+        return d.get('cls') == 'list-target-misaligned'
+    # before impose_at paired indices with targets (0b5ee99) the same call raised instead
+    return (sub == 'C11.no_crash' and d.get('exception') == 'ValueError'
             and 'constraints.py' in d.get('at', '') and 'shape mismatch' in d.get('message', ''))
 
 
@@ -940,9 +972,10 @@ KNOWN = {
     # collapse_cost(clip=True): if the extreme sample of a parameter is expensive, the whole region between the last
     # expensive stretch and that end is dropped, including cheap samples (collapse.py:310-311)
     'C11-cost-clip-drops-edge-region': _kf_cost_clip,
-    # CollapseAt(target=<list of x length>): Collapse() builds impose_at(collapsed_indices, whole_list); the first cost
-    # call then raises ValueError (shape mismatch) unless every index collapsed at once (abstract_solver.py:835)
-    'C11-collapse-at-list-target-crashes-solver': _kf_list_target,
+    # CollapseAt(target=<list of x length>): Collapse() builds impose_at(collapsed_indices, whole_list), which pairs the
+    # k-th collapsed index with target[k] instead of target[index] (abstract_solver.py:835): the parameter is fixed at
+    # another parameter's target (a shape-mismatch ValueError before 0b5ee99) unless every index collapsed at once
+    'C11-collapse-at-list-target-misapplied': _kf_list_target,
     # CollapseAs(offset=True): Collapse() passes the boolean on as the numeric offset, x[j] = x[i] + True (accumulating
     # along chains), whatever distance was detected; parameters fixed by CollapseAt in the same call are moved too
     'C11-collapse-as-offset-true-imposes-plus-one': _kf_offset_true,
